@@ -21,6 +21,9 @@ def gen_config(rng, required=None, defender=None, save=None, max_steps=None):
     env = cfg["env"]
     env["required_players"] = required if required is not None else rng.choice([1, 1, 2, 2, 3])
     env["rewards"] = {"step": rng.choice([-1, 0, -3]), "success": rng.choice([100, 7, 0]), "fail": rng.choice([-10, -5, 0])}
+    if rng.random() < 0.2:
+        # fractional rewards (multiples of a quarter): the configuration takes any number
+        env["rewards"] = {"step": rng.choice([-0.5, -1.25, 0.25]), "success": rng.choice([10.5, 7, 0.75]), "fail": rng.choice([-2.5, -0.75, -3])}
     if rng.random() < 0.35:
         # a partial rewards section (absent names default to 0), or none at all
         for k in ("step", "success", "fail"):
@@ -173,7 +176,13 @@ GARBAGE = ["   ", "not json", "{", "[1,2]", "null", "{}", '{"action_type": "Acti
            # addresses that decode (ipaddress accepts numbers) but are not text: refused as bad requests
            '{"action_type": "ActionType.FindData", "parameters": {"source_host": {"ip": 3232235777}, "target_host": {"ip": 3232235777}}}',
            '{"action_type": "ActionType.FindServices", "parameters": {"source_host": {"ip": "192.168.2.2"}, "target_host": {"ip": true}}}',
-           '{"action_type": "ActionType.BlockIP", "parameters": {"source_host": {"ip": "192.168.2.2"}, "target_host": {"ip": "192.168.2.2"}, "blocked_host": {"ip": 16843009}}}']
+           '{"action_type": "ActionType.BlockIP", "parameters": {"source_host": {"ip": "192.168.2.2"}, "target_host": {"ip": "192.168.2.2"}, "blocked_host": {"ip": 16843009}}}',
+           # unknown fields INSIDE a parameter object: the nested decoders are as strict as the outer one
+           '{"action_type": "ActionType.ExfiltrateData", "parameters": {"source_host": {"ip": "192.168.2.2"}, "target_host": {"ip": "213.47.23.195"}, "data": {"owner": "User1", "id": "DataFromServer1", "size": 0, "type": "", "extra": 1}}}',
+           '{"action_type": "ActionType.ExploitService", "parameters": {"source_host": {"ip": "192.168.2.2"}, "target_host": {"ip": "192.168.1.2"}, "target_service": {"name": "ssh", "type": "passive", "version": "1", "is_local": false, "port": 22}}}',
+           '{"action_type": "ActionType.FindData", "parameters": {"source_host": {"ip": "192.168.2.2", "mask": 24}, "target_host": {"ip": "192.168.2.2"}}}',
+           '{"action_type": "ActionType.ScanNetwork", "parameters": {"source_host": {"ip": "192.168.2.2"}, "target_network": {"ip": "192.168.1.0", "mask": 24, "name": "lan"}}}',
+           '{"action_type": "ActionType.JoinGame", "parameters": {"agent_info": {"name": "x", "role": "Attacker", "team": "red"}}}']
 
 
 # roles that are not allowed: unknown names and values that are not even text (a JSON list, object, number, null, boolean)
@@ -322,9 +331,33 @@ def directed_config(rng, required, max_steps, goal_at_once=False, defender=False
 def directed(rng, k):
     """Run the k-th directed scenario; returns (Session, cfg, draw)."""
     kinds = ["eof", "readerr", "quit", "undecodable"]
-    variant = (k // 16) % 2
-    k = k % 16
-    if k == 15:
+    variant = (k // 17) % 2
+    k = k % 17
+    if k == 16:
+        # episodes without a single action, with an initial view that changes from episode to episode (a random start host in
+        # a scenario with several start hosts): every handed-out trajectory starts with the initial view of ITS episode
+        cfg, draw = directed_config(rng, 1, 4)
+        cfg["env"]["scenario"] = "scenario1" if variant == 0 else "three_nets"
+        cfg["env"]["save_trajectories"] = True
+        A = cfg["coordinator"]["agents"]["Attacker"]
+        A["start_position"]["controlled_hosts"] = ["213.47.23.195", "random"]
+        g0 = copy.deepcopy(nsgenv.EMPTY_PART)
+        g0["known_hosts"] = ["1.1.1.1"]
+        A["goal"] = dict(g0, description="goal", is_any_part_of_goal_random=False)
+        S = CR.Session(cfg, draw=draw)
+        a = ("10.2.16.1", 1)
+        S.connect(a); S.settle()
+        _join(S, a, "z", "Attacker"); S.settle()
+        for n_actions in (2, 0, 1, 0, 0, 2, 0):
+            for _ in range(n_actions):
+                st = S.g._agent_states.get(a)
+                src = sorted((str(h) for h in st.controlled_hosts), key=lambda x: (not x.startswith("192.168."), x))[0]
+                nets = sorted((n.ip, n.mask) for n in st.known_networks)
+                n = nets[_ % len(nets)]
+                t, d = game_msg("ScanNetwork", source_host=ip(src), target_network={"ip": n[0], "mask": n[1]})
+                S.send(a, t, d); S.settle()
+            _reset(S, a, True); S.settle()
+    elif k == 15:
         # dynamic addresses with a REACHABLE goal: the win condition follows the re-labelling, episode after episode
         cfg, draw = directed_config(rng, 1, 6)
         cfg["env"]["use_dynamic_addresses"] = True
@@ -565,7 +598,7 @@ def directed(rng, k):
         _join(S, b, "b", rng.choice(["Attacker", "Defender"])); S.settle()
         _join(S, a, "a2", "Attacker"); S.settle()                     # second join of a joined agent
         _scan(S, a); S.settle()
-        for gb in rng.sample(GARBAGE, 5):
+        for gb in rng.sample(GARBAGE, 5) + [x for x in GARBAGE if '"extra"' in x or '"port"' in x or '"mask": 24}, "target_host"' in x or '"name": "lan"' in x or '"team"' in x or "3232235777" in x]:
             S.send(rng.choice([a, b]), gb, {"kind": "garbage"}); S.settle()
         t, d = gen_invalid_game(rng)
         S.send(b, t, d); S.settle()
